@@ -23,12 +23,15 @@ const vDenom = "stake"
 
 type vBank struct {
 	ccvtypes.BankKeeper
-	bal      map[string]math.Int // module account -> balance of vDenom
-	failSend bool
+	bal        map[string]math.Int // module account -> balance of vDenom
+	failSend   bool
+	failOnSend int // when > 0: only the failOnSend-th send fails
+	sends      int
 }
 
 func (b *vBank) SendCoinsFromModuleToModule(ctx context.Context, senderModule, recipientModule string, amt sdk.Coins) error {
-	if b.failSend {
+	b.sends++
+	if b.failSend || (b.failOnSend > 0 && b.sends == b.failOnSend) {
 		return errors.New("bank: send failed")
 	}
 	for _, c := range amt {
@@ -205,4 +208,82 @@ func VerifC16Allocate() {
 	if totalPower == 0 {
 		vh.Assert(toDistr.IsZero() && len(distr.allocs) == 0, "C16.no-eligible-validator-everything-to-community-pool")
 	}
+}
+
+func vCreditOf(e *vEnv, cid string) math.LegacyDec {
+	a, err := e.k.GetConsumerRewardsAllocationByDenom(e.ctx, cid, vDenom)
+	if err != nil {
+		return math.LegacyZeroDec()
+	}
+	t := math.LegacyZeroDec()
+	for _, c := range a.Rewards {
+		t = t.Add(c.Amount)
+	}
+	return t
+}
+
+// VerifC16AllocateLoop: AllocateTokens over two consumers that share a
+// registered denom, with a bank failure injected for the first, the second or
+// no allocation: a failing consumer keeps its credit and receives nothing, the
+// other one is processed; over both, pool balance + credits change only by what
+// was moved to the distribution account and the community pool; credits in a
+// denom that is neither registered nor allow-listed are never paid.
+func VerifC16AllocateLoop() {
+	e := newVEnv(1)
+	e.k.SetParams(e.ctx, vParams(100, 10))
+	vStakingAllActive(e.st)
+	bank := &vBank{bal: map[string]math.Int{}}
+	bank.bal[types.ConsumerRewardsPool] = math.NewInt(1 << 61)
+	bank.bal["distribution"] = math.ZeroInt()
+	// the arithmetic of one allocation is VerifC16Allocate's subject; here the tax is a constant so
+	// that the two allocations stay linear for the solver
+	tax := math.LegacyNewDecWithPrec(2, 2)
+	distr := &vDistr{bank: bank, tax: tax, funded: math.ZeroInt()}
+	e.k.bankKeeper, e.k.distributionKeeper, e.k.accountKeeper = bank, distr, vAccountKeeper2{}
+	registered := vh.ConcretizeInt(vh.Int("denom_registered"), 0, 1) == 1
+	if registered {
+		e.k.SetConsumerRewardDenom(e.ctx, vDenom)
+	}
+	ids := []string{"1", "10"}
+	credit := make([]math.LegacyDec, 2)
+	allow := make([]bool, 2)
+	for i, cid := range ids {
+		e.k.SetConsumerChainId(e.ctx, cid, "chain")
+		e.k.SetConsumerClientId(e.ctx, cid, vh.Sprintf("07-tendermint-%d", i))
+		pk := vPubKey(0)
+		_ = e.k.SetConsumerValidator(e.ctx, cid, types.ConsensusValidator{ProviderConsAddr: vConsAddr(0), Power: 5, PublicKey: &pk, JoinHeight: 0})
+		credit[i] = vh.Dec(vh.Sprintf("credit%d", i))
+		vh.Assume(credit[i].GT(math.LegacyZeroDec()))
+		vh.Assume(credit[i].LTE(math.LegacyNewDec(1 << 50)))
+		_ = e.k.SetConsumerRewardsAllocationByDenom(e.ctx, cid, vDenom, types.ConsumerRewardsAllocation{Rewards: sdk.DecCoins{sdk.DecCoin{Denom: vDenom, Amount: credit[i]}}})
+		allow[i] = vh.ConcretizeInt(vh.Int(vh.Sprintf("allowlisted%d", i)), 0, 1) == 1
+		if allow[i] {
+			_ = e.k.SetAllowlistedRewardDenoms(e.ctx, cid, []string{vDenom})
+		}
+	}
+	vh.Assume(e.ctx.BlockHeight() >= 240) // validators joined at height 0 are eligible (24 epochs x 10 blocks)
+	bank.failOnSend = vh.ConcretizeInt(vh.Int("bank_fails_on_send"), 0, 2)
+	pool0 := bank.bal[types.ConsumerRewardsPool]
+
+	e.k.AllocateTokens(e.ctx)
+
+	vh.Reach("after-allocate-tokens")
+	moved := math.LegacyZeroDec()
+	for i, cid := range ids {
+		payable := registered || allow[i]
+		after := vCreditOf(e, cid)
+		if !payable {
+			vh.Assert(after.Equal(credit[i]), "C16.loop.unregistered-denom-never-paid")
+			continue
+		}
+		// an allocation either happens completely or leaves the credit untouched
+		vh.Assert(vh.Or(after.Equal(credit[i]), after.LT(math.LegacyNewDec(2))), "C16.loop.allocation-is-all-or-nothing-per-consumer")
+		if bank.failOnSend == 0 {
+			vh.Assert(after.LT(math.LegacyNewDec(2)), "C16.loop.payable-credit-is-paid-when-nothing-fails")
+		}
+		moved = moved.Add(credit[i].Sub(after))
+	}
+	out := math.LegacyNewDecFromInt(bank.bal["distribution"]).Add(math.LegacyNewDecFromInt(distr.funded))
+	vh.Assert(moved.Equal(out), "C16.loop.credits-fall-by-exactly-what-left-the-pool")
+	vh.Assert(pool0.Equal(bank.bal[types.ConsumerRewardsPool].Add(bank.bal["distribution"]).Add(distr.funded)), "C16.loop.no-tokens-created-or-lost")
 }
